@@ -156,6 +156,7 @@ type boundsFn struct {
 	inCong      bool // re-entrancy guard of the congruence rule
 	inInd       bool // re-entrancy guard of the loop-invariant rule
 	bufWritten  bool // write-side buffer facts added
+	bufAtCall   map[ssa.CallInstruction]map[int]aff // unread bytes of a tracked buffer when it was handed to a callee
 	mods        *[]int64
 	cuts        int  // number of cycle cuts taken by rangeOfAtom so far
 	noInline    bool // summary mode: calls stay atoms (the caller translates them)
@@ -200,6 +201,7 @@ type Bounds struct {
 	premiseFacts map[*ssa.Function][]aff    // facts established from call sites (bounds_premise.go)
 	posts        map[*ssa.Function]postcond // proved postconditions (bounds_post.go)
 	nonNeg       map[string]int             // fieldNonNeg: 1 proved, 2 refuted, 3 hypothesis being checked
+	bufLower     map[string]int64           // bufParamLower
 	raw          map[*ssa.Function]*boundsFn
 	symRng       map[string]ival
 	outOfScope   []string
@@ -1019,6 +1021,20 @@ func (bf *boundsFn) runBlocks(order []*ssa.BasicBlock, exit map[*ssa.BasicBlock]
 		bf.facts[b] = fs
 		// buffer typestate: join of predecessors (all must be known and equal)
 		in := bufState{}
+		if len(b.Preds) == 0 && b == bf.fn.Blocks[0] && depth == 0 {
+			// a *bytes.Buffer parameter starts with an unknown number of unread
+			// bytes that is at least what every caller is known to leave in it
+			for i, p := range bf.fn.Params {
+				if strings.HasSuffix(p.Type().String(), "*bytes.Buffer") {
+					name := fmt.Sprintf("unread(%s)@entry of %s", sx(p), bf.fn)
+					if _, ok := bf.B.symRng[name]; !ok {
+						bf.B.symRng[name] = ival{bf.B.bufParamLower(bf.fn, i), posInfI}
+					}
+					a := affAtom(symKey{name})
+					in[sx(p)] = &a
+				}
+			}
+		}
 		loopHead := false
 		if len(b.Preds) > 0 {
 			first := true
